@@ -285,9 +285,12 @@ fn build_batch(specs: Vec<GrammarSpec>, out: &Path, crates: usize, plan: &str, s
         write_if_changed(
             &cdir.join("Cargo.toml"),
             &format!(
-                "[package]\nname = \"{cname}\"\nversion = \"0.1.0\"\nedition = \"2021\"\n\n[dependencies]\nbatchrt = {{ path = \"../../../batchrt\" }}\nverif_core = {{ path = \"../../../core\" }}\npeginator = {{ path = \"{0}/runtime\" }}\n{1}",
+                "[package]\nname = \"{cname}\"\nversion = \"0.1.0\"\nedition = \"{2}\"\n\n[dependencies]\nbatchrt = {{ path = \"../../../batchrt\" }}\nverif_core = {{ path = \"../../../core\" }}\npeginator = {{ path = \"{0}/runtime\" }}\n{1}",
                 std::env::var("VERIF_REPO_PATH").unwrap_or_else(|_| "/repo".into()),
-                if plan == "macro" { format!("peginator_macro = {{ path = \"{}/macro\" }}\n", std::env::var("VERIF_REPO_PATH").unwrap_or_else(|_| "/repo".into())) } else { String::new() }
+                if plan == "macro" { format!("peginator_macro = {{ path = \"{}/macro\" }}\n", std::env::var("VERIF_REPO_PATH").unwrap_or_else(|_| "/repo".into())) } else { String::new() },
+                // compile-only plan (C03): every second crate is a 2024-edition crate (`gen` is a keyword there, other lints
+                // and capture rules differ); everything else uses the repository's own edition
+                std::env::var("VERIF_EDITION").unwrap_or_else(|_| if (plan == "types" && ci % 2 == 1) || plan == "regress_c03" { "2024".into() } else { "2021".into() })
             ),
         );
         let mut main = String::from("#![forbid(unsafe_code)]\n#![allow(warnings)]\n");
